@@ -473,6 +473,17 @@ async fn h_ok(rqctx: RequestContext<()>) -> Result<HttpResponseOk<Seen>, HttpErr
 }
 
 /// A hand-built success response that tries to set its own x-request-id.
+/// A websocket channel: the 101 is the final answer to the upgrade request; the
+/// handler reports the id it was given as raw bytes on the upgraded connection.
+#[dropshot::channel { protocol = WEBSOCKETS, path = "/ws" }]
+async fn h_ws(rqctx: RequestContext<()>, upgraded: dropshot::WebsocketConnection) -> dropshot::WebsocketChannelResult {
+    use tokio::io::AsyncWriteExt;
+    let mut io = upgraded.into_inner();
+    io.write_all(rqctx.request_id.as_bytes()).await?;
+    io.shutdown().await?;
+    Ok(())
+}
+
 #[endpoint { method = GET, path = "/okhdr" }]
 async fn h_okhdr(rqctx: RequestContext<()>) -> Result<hyper::Response<dropshot::Body>, HttpError> {
     let body = serde_json::to_string(&Seen { seen: rqctx.request_id.clone() }).unwrap();
@@ -617,7 +628,8 @@ fn lv_requests(rng: &mut Rng, n: usize, conn: usize) -> Vec<LvReq> {
         let mut bogus = rng.chance(1, 4);
         let q = format!("?nonce={}{}", nonce, if bogus { "&bogus=1" } else { "" });
         let (scen, status, method, target, ctype_json, body): (String, u16, &'static str, String, bool, &'static [u8]) =
-            match rng.below(14) {
+            match rng.below(15) {
+                14 => ("ws".into(), 101, "GET", "/ws".into(), false, b""),
                 0 => ("ok".into(), 200, "GET", "/ok".into(), false, b""),
                 1 => ("okhdr".into(), 200, "GET", "/okhdr".into(), false, b""),
                 2 | 3 | 4 => {
@@ -737,6 +749,7 @@ fn lv_stream(out: &mut Out, id: &mut u64, thorough: bool) {
             let mut api = ApiDescription::new();
             api.register(h_ok).unwrap();
             api.register(h_okhdr).unwrap();
+            api.register(h_ws).unwrap();
             api.register(h_okdecl).unwrap();
             api.register(h_err).unwrap();
             api.register(h_custom).unwrap();
@@ -768,6 +781,12 @@ fn lv_stream(out: &mut Out, id: &mut u64, thorough: bool) {
                     if let Some(c) = &sent_cid {
                         hdrs.push(("X-Request-Id", c.as_str()));
                     }
+                    if req.scen == "ws" {
+                        hdrs.push(("connection", "Upgrade"));
+                        hdrs.push(("upgrade", "websocket"));
+                        hdrs.push(("sec-websocket-version", "13"));
+                        hdrs.push(("sec-websocket-key", "dGhlIHNhbXBsZSBub25jZQ=="));
+                    }
                     let raw = build_request(req.method, &req.target, &hdrs, req.body);
                     let mut obs = None;
                     // a keep-alive connection, re-opened if the server closed it
@@ -787,9 +806,16 @@ fn lv_stream(out: &mut Out, id: &mut u64, thorough: bool) {
                             continue;
                         }
                         match r.read_response(false) {
-                            Some(resp) if resp.well_formed => {
-                                let close =
+                            Some(mut resp) if resp.well_formed => {
+                                let mut close =
                                     resp.header("connection").map(|v| v.eq_ignore_ascii_case("close")).unwrap_or(false);
+                                if req.scen == "ws" {
+                                    // what the channel handler wrote after the upgrade: the id it saw
+                                    let _ = r.stream.set_read_timeout(Some(std::time::Duration::from_secs(5)));
+                                    let after = r.drain_to_eof();
+                                    resp.body = format!("{{\"seen\":\"{}\"}}", String::from_utf8_lossy(&after)).into_bytes();
+                                    close = true;
+                                }
                                 let o = lv_observe(&req, &sent_cid, &resp);
                                 if let Some(x) = o.xrids.last() {
                                     if earlier.len() < 64 {
